@@ -83,3 +83,52 @@ pub fn column<const L: usize, const M: usize>(b: &Buf<L>, cols: usize, col: usiz
     }
     out
 }
+
+/// Frame + value assertion: the selected column equals `spec(limb, i)` on its `size` active
+/// limbs, everything else is unchanged.
+pub fn assert_col<const L: usize>(
+    before: &Buf<L>,
+    after: &Buf<L>,
+    n: usize,
+    cols: usize,
+    res_col: usize,
+    size: usize,
+    spec: impl Fn(usize, usize) -> i64,
+) {
+    assert_frame(before, after, n, cols, res_col, size);
+    let mut j = 0;
+    while j < size {
+        let mut i = 0;
+        while i < n {
+            assert!(after.at(n, cols, res_col, j, i) == spec(j, i), "selected column differs from the ring-level specification");
+            i += 1;
+        }
+        j += 1;
+    }
+}
+
+/// coefficient i of X^p * a in Z[X]/(X^n+1) (n a power of two; p any integer), `a(i)` the input
+pub fn rot_coeff(n: usize, p: i64, i: usize, a: impl Fn(usize) -> i64) -> i64 {
+    // (X^p a)_i = sign * a_{(i - p) mod 2n folded}
+    let two_n = 2 * n as i64;
+    let src = (i as i64 - p).rem_euclid(two_n) as usize; // exponent e with X^e -> X^i, i.e. e + p ≡ i or i + n
+    if src < n { a(src) } else { a(src - n).wrapping_neg() }
+}
+
+/// coefficient i of a(X^g) in Z[X]/(X^n+1), g odd: sum over e with e*g ≡ i (mod 2n) (+) or ≡ i+n (-)
+pub fn auto_coeff(n: usize, g: i64, i: usize, a: impl Fn(usize) -> i64) -> i64 {
+    let two_n = 2 * n as i64;
+    let gm = g.rem_euclid(two_n);
+    let mut e = 0usize;
+    let mut acc: i64 = 0;
+    while e < n {
+        let t = ((e as i64) * gm).rem_euclid(two_n) as usize;
+        if t == i {
+            acc = a(e);
+        } else if t == i + n {
+            acc = a(e).wrapping_neg();
+        }
+        e += 1;
+    }
+    acc
+}
